@@ -125,7 +125,14 @@ func Build(j Job) (*Built, error) {
 			Tags: []string{"verif"}, Deep: j.Deep, Env: env,
 		}
 		if len(pkgs) > 0 {
-			cfg.Targets = append(cfg.Targets, instr.Target{Dir: root, Patterns: pkgs, Root: repo})
+			// the goa packages are resolved from the module the worker is built in
+			t := instr.Target{Dir: root, Patterns: pkgs, Root: repo}
+			if j.BuildDir != "" {
+				t.Dir = j.BuildDir
+			} else if mf := os.Getenv("VERIF_MODFILE"); mf != "" {
+				t.Flags = []string{"-modfile=" + mf} // VERIF_REPO run: see run.sh
+			}
+			cfg.Targets = append(cfg.Targets, t)
 		}
 		cfg.Targets = append(cfg.Targets, targets...)
 		return cfg
@@ -138,6 +145,9 @@ func Build(j Job) (*Built, error) {
 	b.Report = rep
 	build := func(out, overlay string, race bool) error {
 		args := []string{"build", "-tags", "verif,verifworker", "-overlay", overlay, "-o", out}
+		if mf := os.Getenv("VERIF_MODFILE"); mf != "" && j.BuildDir == "" {
+			args = append(args, "-modfile="+mf)
+		}
 		if race {
 			args = append(args, "-race")
 		}
@@ -247,6 +257,11 @@ type Options struct {
 	// AuxIters is the number of free-running iterations per scenario of the auxiliary -race
 	// pass (default 200).
 	AuxIters int
+	// AuxCopies > 1 makes the auxiliary pass run that many real goroutines per thread body
+	// (2-3 bodies x AuxCopies goroutines hammer one instance together); AuxMax caps the number
+	// of scenarios of the auxiliary pass (0 = all selected quick scenarios).
+	AuxCopies int
+	AuxMax    int
 	// Only restricts the run to scenarios whose name contains this text (development aid,
 	// also settable through VERIF_SCHED_ONLY); a restricted run is reported as incomplete.
 	Only string
@@ -658,8 +673,21 @@ func (b *Built) AuxRace(c *core.Ctx, o Options, key string, hbSignatures []strin
 	if iters == 0 {
 		iters = 200
 	}
+	if o.AuxMax > 0 && len(names) > o.AuxMax {
+		// an evenly spread subset, deterministic
+		var sub []string
+		for i := 0; i < o.AuxMax; i++ {
+			sub = append(sub, names[i*len(names)/o.AuxMax])
+		}
+		names = sub
+	}
+	copies := o.AuxCopies
+	if copies < 1 {
+		copies = 1
+	}
+	note["goroutines_per_thread_body"] = copies
 	var fr []vrt.FreeResult
-	stderr, err := b.run(b.AuxWorker, 5*time.Minute, 0, &fr, "-free", strings.Join(names, ","), "-iters", fmt.Sprint(iters))
+	stderr, err := b.run(b.AuxWorker, 10*time.Minute, 0, &fr, "-free", strings.Join(names, ","), "-iters", fmt.Sprint(iters), "-copies", fmt.Sprint(copies))
 	if err != nil {
 		note["skipped"] = clip(err.Error(), 300)
 		return
